@@ -83,6 +83,21 @@ theorem wakeOnSend_covers (d : Nat) (p : List Nat) (h : Cares.Generated.Ev.wakeO
   simp only [decide_eq_true_eq] at hlt
   exact ⟨x, hx, by omega⟩
 
+/-- the other direction: a query whose deadline is strictly earlier than every pending one - in particular the first query
+    of an idle channel, whose event thread sleeps without a timeout - always wakes the thread (over the guard regenerated
+    from ares_send_query()) -/
+theorem wakeOnSend_earliest (d : Nat) (p : List Nat) (h : ∀ x ∈ p, d < x) :
+    Cares.Generated.Ev.wakeOnSend d p = true := by
+  unfold Cares.Generated.Ev.wakeOnSend
+  rw [List.all_eq_true]
+  intro x hx
+  have := h x hx
+  simp only [decide_eq_true_eq]
+  omega
+
+theorem wakeOnSend_idle (d : Nat) : Cares.Generated.Ev.wakeOnSend d [] = true :=
+  wakeOnSend_earliest d [] (by simp)
+
 /-- the event thread's own step can only *enter* the waiting state from `inTimeout` (with the timeout just
     computed) or stay in it unchanged -/
 theorem et_pc_waiting (s : St) (u : Option Nat) (hu : (etStep s).pc = .waiting u) :
